@@ -186,6 +186,9 @@ func prepare(race bool, pkgs []string) (*build, error) {
 
 func (b *build) binary(pkg string) string {
 	name := filepath.Base(pkg)
+	if name == "." {
+		name = "reservoir" // the module's root package (package main)
+	}
 	return filepath.Join(b.binDir, name+".test")
 }
 
